@@ -121,6 +121,7 @@ fn stmt(s: &Stmt, owner: &str) -> Value {
             owner,
         ),
         Stmt::SendSelf(e) => send(&[("event".into(), e.clone())], &[], &None, owner),
+        Stmt::SendInternalExpr(x) => send(&[("eventexpr".into(), x.render()), ("target".into(), "#_internal".into())], &[], &None, owner),
         Stmt::If { branches, els } => if_chain(branches, els, owner),
         Stmt::Foreach {
             array,
